@@ -126,11 +126,20 @@ type c19Fn struct {
 	// every lock this function's own body takes (anywhere, nested blocks included)
 	locksTaken c19Mask
 	rmw        []c19RMWAccess
+	// locks still held (taken here, no deferred Unlock) at a return statement or at the end of the body
+	leaks c19Mask
+	// every Lock()/RLock() statement: the lock and the locks already held locally
+	lockSites []c19LockSite
 	// accesses / calls / spawns in source order (start-up analysis: what happens after the first `go`)
 	seq []c19Ev
 	// calls through function VALUES (func-typed variables, parameters, fields) that the call graph cannot follow,
 	// and `go` / time.AfterFunc of such values
 	dynCalls, dynGo int
+}
+
+type c19LockSite struct {
+	bit  c19Mask
+	held c19Mask
 }
 
 type c19Ev struct {
@@ -169,6 +178,8 @@ type c19Scan struct {
 	nominal []string
 	// second pass: RLock / RUnlock are not lock operations (only exclusive sections protect a write)
 	exclusiveOnly bool
+	// lock name -> package directory (relative) of its declaration
+	lockPkg map[string]string
 	// "<file relative to the repo>:<line>" of every direct access -> variable name (race report mapping)
 	accessAt map[string]string
 }
@@ -360,6 +371,12 @@ func (s *c19Scan) index() error {
 			}
 		}
 	}
+	s.lockPkg = map[string]string{}
+	for o, n := range s.lockOf {
+		if o.Pkg() != nil {
+			s.lockPkg[n] = strings.TrimPrefix(strings.TrimPrefix(o.Pkg().Path(), c19Mod), "/")
+		}
+	}
 	seenLock := map[string]bool{}
 	for _, n := range s.lockOf {
 		if !seenLock[n] {
@@ -428,6 +445,8 @@ type c19Walker struct {
 	dropped c19Mask
 	// per lock bit: the Lock() statement that opened the section currently held locally
 	lastLock [64]token.Pos
+	// locks with a registered `defer x.Unlock()`
+	deferred c19Mask
 }
 
 func recvTypeName(fd *ast.FuncDecl) string {
@@ -486,7 +505,8 @@ func (s *c19Scan) collect() {
 	}
 	for _, j := range jobs {
 		w := &c19Walker{s: s, p: j.p, fn: j.fn}
-		w.stmts(j.fd.Body.List, 0)
+		end := w.stmts(j.fd.Body.List, 0)
+		j.fn.leaks |= end &^ w.deferred
 	}
 }
 
@@ -566,6 +586,7 @@ func (w *c19Walker) stmt(st ast.Stmt, held c19Mask) c19Mask {
 		if bit, m := w.lockCall(st.X); m != "" {
 			if m == "Lock" || m == "RLock" {
 				w.fn.locksTaken |= bit
+				w.fn.lockSites = append(w.fn.lockSites, c19LockSite{bit, held})
 				if i := bitIndex(bit); i >= 0 {
 					w.lastLock[i] = st.Pos()
 				}
@@ -578,7 +599,8 @@ func (w *c19Walker) stmt(st ast.Stmt, held c19Mask) c19Mask {
 		}
 		w.expr(st.X, held, nil)
 	case *ast.DeferStmt:
-		if _, m := w.lockCall(st.Call); m == "Unlock" || m == "RUnlock" {
+		if bit, m := w.lockCall(st.Call); m == "Unlock" || m == "RUnlock" {
+			w.deferred |= bit
 			return held // released at function exit
 		}
 		w.expr(st.Call, held, nil)
@@ -644,6 +666,7 @@ func (w *c19Walker) stmt(st ast.Stmt, held c19Mask) c19Mask {
 		for _, r := range st.Results {
 			w.expr(r, held, nil)
 		}
+		w.fn.leaks |= held &^ w.deferred // returns with a lock it took and will not release
 	case *ast.SendStmt:
 		w.expr(st.Chan, held, nil)
 		w.expr(st.Value, held, nil)
@@ -712,7 +735,8 @@ func (w *c19Walker) newClosure(lit *ast.FuncLit) *c19Fn {
 	fn := &c19Fn{name: fmt.Sprintf("%s$%d", base, w.fn.nclos), pkg: w.fn.pkg}
 	w.s.all = append(w.s.all, fn)
 	cw := &c19Walker{s: w.s, p: w.p, fn: fn}
-	cw.stmts(lit.Body.List, 0)
+	end := cw.stmts(lit.Body.List, 0)
+	fn.leaks |= end &^ cw.deferred
 	return fn
 }
 
@@ -1646,6 +1670,133 @@ func (s *c19Scan) rmwSplits() []c19Split {
 	}
 	sort.Slice(out, func(i, j int) bool { return out[i].Var+out[i].Fn < out[j].Var+out[j].Fn })
 	return out
+}
+
+// ---------------------------------------------------------------- lock leaks and lock order
+//
+// lock-leak <func> <lock>: the function takes the lock and can return (or fall off its end) still holding it, with no
+// deferred Unlock: a missing Unlock on one path.  Expected: none.
+// lock-order <A> <B>: B is taken while A may be held (A held locally at the Lock() statement, or held by some caller
+// path).  The committed edge list must be acyclic (a cycle = a lock-order inversion = a possible deadlock); A = B is a
+// re-acquisition of a non-reentrant mutex.
+
+type c19Pair struct{ A, B string }
+
+func (s *c19Scan) lockLeaks() []c19Pair {
+	var out []c19Pair
+	for _, f := range s.all {
+		if !inList(f.pkg, c19Anchored) {
+			continue
+		}
+		for b, l := range s.locks {
+			if f.leaks&(1<<uint(b)) != 0 {
+				out = append(out, c19Pair{f.name, l})
+			}
+		}
+	}
+	sort.Slice(out, func(i, j int) bool { return out[i].A+out[i].B < out[j].A+out[j].B })
+	return out
+}
+
+func (s *c19Scan) mayHeld() map[*c19Fn]c19Mask {
+	may := map[*c19Fn]c19Mask{}
+	for changed := true; changed; {
+		changed = false
+		for _, f := range s.all {
+			for _, cl := range f.calls {
+				for _, t := range cl.callees {
+					nh := may[f] | cl.held
+					if may[t]|nh != may[t] {
+						may[t] |= nh
+						changed = true
+					}
+				}
+			}
+		}
+	}
+	return may
+}
+
+func (s *c19Scan) lockOrder() []c19Pair {
+	may := s.mayHeld()
+	seen := map[c19Pair]bool{}
+	var out []c19Pair
+	for _, f := range s.all {
+		for _, site := range f.lockSites {
+			bi := bitIndex(site.bit)
+			if bi < 0 {
+				continue
+			}
+			before := may[f] | site.held
+			for a, la := range s.locks {
+				if before&(1<<uint(a)) == 0 {
+					continue
+				}
+				p := c19Pair{la, s.locks[bi]}
+				if !inList(s.lockPkg[p.A], c19Anchored) && !inList(s.lockPkg[p.B], c19Anchored) {
+					continue // an edge between two locks outside the anchored packages
+				}
+				if !seen[p] {
+					seen[p] = true
+					out = append(out, p)
+				}
+			}
+		}
+	}
+	sort.Slice(out, func(i, j int) bool { return out[i].A+" "+out[i].B < out[j].A+" "+out[j].B })
+	return out
+}
+
+// c19LockRank: a topological order of the lock-order edges ("" and the offending pair when there is a cycle)
+// Lock identity is per TYPE: an edge A → A is a re-acquisition only if it is the same instance.  The known ones
+// (different instances / over-approximated interface calls) are listed here and in the committed table; a new one is
+// reported.
+var c19KnownSelfEdges = []string{"BitCask.RW"}
+
+// functions that hand a lock to their caller on purpose
+var c19KnownLockLeaks = []string{"TrieDatabase.Lock"}
+
+func c19LockRank(edges []c19Pair) ([]string, *c19Pair) {
+	nodes := map[string]bool{}
+	indeg := map[string]int{}
+	adj := map[string][]string{}
+	for _, e := range edges {
+		if e.A == e.B {
+			if inList(e.A, c19KnownSelfEdges) {
+				continue
+			}
+			return nil, &c19Pair{e.A, e.B}
+		}
+		nodes[e.A], nodes[e.B] = true, true
+		adj[e.A] = append(adj[e.A], e.B)
+		indeg[e.B]++
+	}
+	var order []string
+	for len(order) < len(nodes) {
+		var ready []string
+		for n := range nodes {
+			if indeg[n] == 0 {
+				ready = append(ready, n)
+			}
+		}
+		if len(ready) == 0 {
+			// a cycle: report one edge inside it
+			for _, e := range edges {
+				if indeg[e.A] > 0 && indeg[e.B] > 0 {
+					return nil, &c19Pair{e.A, e.B}
+				}
+			}
+			return nil, &edges[0]
+		}
+		sort.Strings(ready)
+		n := ready[0]
+		order = append(order, n)
+		indeg[n] = -1
+		for _, m := range adj[n] {
+			indeg[m]--
+		}
+	}
+	return order, nil
 }
 
 // c19AllVarNames: the shared variables of c19Vars followed by the read-modify-write records of c19RMWs
